@@ -534,18 +534,42 @@ Proof. destruct l as [|x l]; cbn [length Nat.ltb Nat.leb opt_or]; [cbn; f_equal;
 Lemma omap_add_if (c : bool) a k : omap_add (if c then Some a else None) k = if c then Some (a + k) else None.
 Proof. destruct c; reflexivity. Qed.
 
-Theorem insert_fresh : forall p v it sec rx s',
-  bytes_ok p -> parse p = Ok v -> plain_rr_ok rx -> sec = SAnswer \/ sec = SNameServers \/ sec = SAdditional ->
-  (sec <> SAdditional -> exists w, u16_at p 2 w /\ N.land w 32768 = 32768%N) ->
-  m_insert_rr sec (plain_record rx) (v, it) = (s', Ok tt) ->
-  exists q qls qt A Nn R,
+Lemma plain_record_rv_at rx o : plain_record (rv_at (fst rx) (snd rx) o, snd rx) = plain_record rx.
+Proof. destruct rx as [r x]. reflexivity. Qed.
+
+Lemma map_plain_place : forall l o, map plain_record (place o l) = map plain_record l.
+Proof. induction l as [|rx l IH]; intros o; cbn [place map]; [reflexivity|]. rewrite IH, plain_record_rv_at. reflexivity. Qed.
+
+(** an accepted [build] is a fixed point of decompression *)
+Lemma build_fixed q f w qls qt A Nn R s1 s2 s3 : bytes_ok q -> parse q = Ok f -> plain_parts q w qls qt A Nn R s1 s2 s3 ->
+  uncompress q = Ok q.
+Proof.
+  intros Hb Hp P. destruct (parts_build_wf q w qls qt A Nn R s1 s2 s3 Hb P) as (_ & Rq).
+  destruct (uncompress_reading q f Hb Hp) as (qls1 & qt1 & l1 & l2 & l3 & R1 & Hu).
+  destruct (reading_fun _ _ _ _ _ _ _ _ _ _ _ R1 Rq) as (-> & -> & -> & -> & ->).
+  rewrite Hu. f_equal. unfold plain_packet_of. rewrite !map_app, !map_plain_place.
+  symmetry. etransitivity; [exact (pp_eq _ _ _ _ _ _ _ _ _ _ P)|]. unfold build, cat. rewrite !concat_app. reflexivity.
+Qed.
+
+Definition same_view (v v' : ppacket) : Prop :=
+  pp_packet v = pp_packet v' /\
+  pp_offset_question v = pp_offset_question v' /\ pp_offset_answers v = pp_offset_answers v' /\
+  pp_offset_nameservers v = pp_offset_nameservers v' /\ pp_offset_additional v = pp_offset_additional v' /\
+  pp_offset_edns v = pp_offset_edns v' /\ pp_edns_count v = pp_edns_count v' /\ pp_ext_rcode v = pp_ext_rcode v' /\
+  pp_edns_version v = pp_edns_version v' /\ pp_ext_flags v = pp_ext_flags v' /\ pp_max_payload v = pp_max_payload v'.
+
+Theorem insert_core_plain : forall q v' v it sec rx s',
+  bytes_ok q -> parse q = Ok v' -> uncompress q = Ok q -> same_view v v' -> pp_maybe_compressed v = false ->
+  plain_rr_ok rx -> sec = SAnswer \/ sec = SNameServers \/ sec = SAdditional ->
+  (sec <> SAdditional -> exists w, u16_at q 2 w /\ N.land w 32768 = 32768%N) ->
+  insert_core sec (plain_record rx) (v, it) = (s', Ok tt) ->
+  exists qls qt A Nn R,
     let o1 := 12 + length (wire_of_labels qls) + 4 in
-    uncompress p = Ok q /\
     reading q qls qt (place o1 A) (place (o1 + length (cat A)) Nn) (place (o1 + length (cat A) + length (cat Nn)) R) /\
     let A' := ext_a sec rx A in let N' := ext_n sec rx Nn in let R' := ext_r sec rx R in
     let z := pp_packet (fst s') in
     q = build (firstn 12 q) qls qt A Nn R /\ z = build (firstn 12 z) qls qt A' N' R' /\
-    bytes_ok z /\ wf_packet z /\
+    bytes_ok z /\ wf_packet z /\ uncompress z = Ok z /\ (forall w0, u16_at q 2 w0 -> u16_at z 2 w0) /\
     reading z qls qt (place o1 A') (place (o1 + length (cat A')) N') (place (o1 + length (cat A') + length (cat N')) R') /\
     snd s' = it /\
     exists f, parse z = Ok f /\
@@ -554,20 +578,16 @@ Theorem insert_fresh : forall p v it sec rx s',
       pp_offset_edns (fst s') = pp_offset_edns f /\ pp_edns_count (fst s') = pp_edns_count f /\
       pp_ext_rcode (fst s') = pp_ext_rcode f /\ pp_edns_version (fst s') = pp_edns_version f /\
       pp_ext_flags (fst s') = pp_ext_flags f /\ pp_max_payload (fst s') = pp_max_payload f /\
-      pp_maybe_compressed (fst s') = false /\ pp_cached (fst s') = None.
+      pp_maybe_compressed (fst s') = false /\ pp_cached (fst s') = pp_cached v.
 Proof.
-  intros p v it sec rx s' Hb Hp Hrx Hsec Hgate Hins.
-  destruct (insert_prologue_fresh p v it Hb Hp) as (q & v' & Hu & Hp' & Hpk' & Hpro).
-  destruct (uncompress_roundtrip p v Hb Hp) as (q0 & v0 & _ & _ & _ & _ & _ & _ & _ & _ & Hu0 & Hbq & Hp0 & Hfix & _).
-  rewrite Hu in Hu0. inversion Hu0; subst q0. clear Hu0 Hp0 v0.
-  unfold m_insert_rr in Hins. apply cbind_ok in Hins. destruct Hins as (a & s1' & Hpro' & Hcore). rewrite Hpro in Hpro'. inversion Hpro'; subst s1'. clear Hpro'.
+  intros q v' v it sec rx s' Hbq Hp' Hfix (Hdvp & Voq & Voa & Von & Vor & Voe & Vc & Vrc & Vver & Vxf & Vmp) Vmc Hrx Hsec Hgate Hcore.
   destruct (insert_core_ok _ _ _ _ _ Hcore) as (p1 & ins & Hinc & Hio & Hle & Hbytes & _ & Hit).
-  assert (Hdvp : pp_packet (decompressed_view v') = q) by (unfold decompressed_view, pp_update; cbn; exact Hpk').
-  rewrite Hdvp in Hinc.
+  assert (Hpk' : pp_packet v' = q) by (destruct (parse_shape q v' Hbq Hp') as (? & ? & ? & ? & ? & ? & ? & F0); exact (pf_packet _ _ _ _ _ _ _ _ _ F0)).
+  rewrite Hpk' in Hdvp. rewrite Hdvp in Hinc.
   destruct (plain_parts_of q v' Hbq Hp' Hfix) as (w & qls & qt & A & Nn & R & s1 & s2 & s3 & P).
   destruct (parts_build_wf q w qls qt A Nn R s1 s2 s3 Hbq P) as (Lq & Rq).
   destruct (parse_offsets q v' w qls qt A Nn R s1 s2 s3 Hbq Hp' P) as (Oa & On & Or).
-  exists q, qls, qt, A, Nn, R. cbv zeta. split; [exact Hu|]. split; [exact Rq|].
+  exists qls, qt, A, Nn, R. cbv zeta. split; [exact Rq|].
   destruct (rrcount_inc_facts q sec p1 Hinc Hsec) as (c & Hc & Hc1 & Hl1 & Hsame & Hbp1).
   set (o1 := 12 + length (wire_of_labels qls) + 4) in *. set (o2 := o1 + length (cat A)) in *. set (o3 := o2 + length (cat Nn)) in *.
   pose proof P as [Peq P12 Pw Pqd Pan Pns Par Pgate Pqok Pq255 Pqb Pqt PCA PCN PCR].
@@ -588,9 +608,7 @@ Proof.
   (* where the record goes *)
   assert (Eins : ins = match sec with SAnswer => o2 | SNameServers => o3 | _ => o3 + length (cat R) end).
   { unfold insertion_offset in Hio. rewrite Hdvp in Hio.
-    change (pp_offset_nameservers (decompressed_view v')) with (pp_offset_nameservers v') in Hio.
-    change (pp_offset_additional (decompressed_view v')) with (pp_offset_additional v') in Hio.
-    rewrite On, Or, Lq in Hio.
+    rewrite Von, Vor, On, Or, Lq in Hio.
     destruct Hsec as [->|[->| ->]]; cbn [opt_or] in Hio.
     - destruct (length Nn) eqn:En; cbn [Nat.ltb Nat.leb opt_or] in Hio.
       + pose proof (Hnil Nn En) as EN. destruct (length R) eqn:Er; cbn [Nat.ltb Nat.leb] in Hio; inversion Hio; unfold o3; rewrite ?EN; cbn [length]; [rewrite (Hnil R Er); cbn [length]|]; lia.
@@ -602,11 +620,7 @@ Proof.
   assert (Hqd' : u16_at HD 4 1%N) by (apply Hfld; [lia|destruct Hsec as [->|[->| ->]]; cbn; lia|exact Pqd]).
   assert (Hone : Forall plain_rr_ok [rx]) by (constructor; [exact Hrx|constructor]).
   assert (Hgate' : sec <> SAdditional -> N.land w 32768 = 32768%N).
-  { intros Hns'. destruct (Hgate Hns') as (w0 & Hw0 & Hqr).
-    pose proof (uncompress_header p q Hu) as Hh.
-    assert (H12p : 12 <= length p) by (apply (f_equal (@length _)) in Hh; rewrite !firstn_length in Hh; lia).
-    pose proof (u16_at_firstn p 12 2 w0 ltac:(lia) Hw0) as U0. rewrite <- Hh in U0.
-    pose proof (u16_at_firstn q 12 2 w ltac:(lia) Pw) as U1. rewrite (u16_at_fun _ _ _ _ U1 U0). exact Hqr. }
+  { intros Hns'. destruct (Hgate Hns') as (w0 & Hw0 & Hqr). rewrite (u16_at_fun _ _ _ _ Pw Hw0). exact Hqr. }
   (* the packet after the splice *)
   assert (Ez : pp_packet (fst s') = build HD qls qt (ext_a sec rx A) (ext_n sec rx Nn) (ext_r sec rx R)).
   { rewrite Hbytes, Eins. unfold build. fold Qb. rewrite EpHD at 1 2.
@@ -662,8 +676,11 @@ Proof.
       - destruct Hsec as [->|[->| ->]]; cbn [ext_n]; [exact PCN|apply sec_ext; assumption|exact PCN].
       - destruct Hsec as [->|[->| ->]]; cbn [ext_r]; [exact PCR|exact PCR|apply sec_ext; assumption]. }
     split; [exact Peq|]. rewrite EHD. rewrite <- Ez in Bz, Wz, Rz.
-    split; [exact Ez|]. split; [exact Bz|]. split; [exact Wz|]. split; [exact Rz|]. split; [exact Hit|].
-    destruct (parse_complete _ Bz Wz) as (f & Hf). exists f. split; [exact Hf|].
+    destruct (parse_complete _ Bz Wz) as (f & Hf).
+    split; [exact Ez|]. split; [exact Bz|]. split; [exact Wz|]. split; [exact (build_fixed _ f _ _ _ _ _ _ _ _ _ Bz Hf Pz)|].
+    split; [intros w0 Hw0; rewrite <- (u16_at_fun _ _ _ _ Pw Hw0); exact (pp_w _ _ _ _ _ _ _ _ _ _ Pz)|].
+    split; [exact Rz|]. split; [exact Hit|].
+    exists f. split; [exact Hf|].
     destruct (parse_offsets _ f _ _ _ _ _ _ _ _ _ Bz Hf Pz) as (Oa' & On' & Or').
     destruct (parse_shape _ _ Bz Hf) as (? & ? & ? & ? & ? & ? & ? & Ff). destruct (parse_shape _ _ Hbq Hp') as (? & ? & ? & ? & ? & ? & ? & Fq).
     destruct (build_summary _ f _ _ _ _ _ _ _ _ _ Bz Hf Pz) as (Sz & Iz). destruct (build_summary q v' _ _ _ _ _ _ _ _ _ Hbq Hp' P) as (Sq & Iq).
@@ -684,17 +701,18 @@ Proof.
           as (E1 & E2 & E3 & E4 & E5);
         split; [|repeat split; congruence];
         cbn [summary_of rv_at rv_off] in Sq, Sz; destruct Sq as (Oq & _); destruct Sz as (Oz & _); rewrite Oz;
-        rewrite Evs; cbn [pp_update pp_offset_edns decompressed_view ext_a ext_n]; rewrite Oq; cbn [omap_add ext_a ext_n ext_r];
+        rewrite Evs; cbn [pp_update pp_offset_edns ext_a ext_n]; rewrite Voe, Oq; cbn [omap_add ext_a ext_n ext_r];
           rewrite ?cat_app, ?Crx, ?app_length; f_equal; unfold o3, o2; lia
        |cbn [summary_of] in Sq, Sz; destruct Sq as (Oq & C1 & C2 & C3 & C4 & C5); destruct Sz as (Oz & D1 & D2 & D3 & D4 & D5);
         split; [|repeat split; congruence];
-        rewrite Oz, Evs; cbn [pp_update pp_offset_edns decompressed_view]; rewrite Oq; reflexivity]|].
+        rewrite Oz, Evs; cbn [pp_update pp_offset_edns]; rewrite Voe, Oq; reflexivity]|].
     all: destruct Esum as (E0 & E1 & E2 & E3 & E4 & E5).
     all: pose proof (pf_oq _ _ _ _ _ _ _ _ _ Ff) as Oqf; pose proof (pf_oq _ _ _ _ _ _ _ _ _ Fq) as Oqq.
     all: assert (Hl0 : forall l : list (rec_view * rd_view), length l = 0 -> l = []) by (intros [|? ?] E; [reflexivity|discriminate]).
     all: rewrite Evs in E0 |- *.
-    all: cbn [pp_update decompressed_view pp_offset_question pp_offset_answers pp_offset_nameservers pp_offset_additional pp_offset_edns
+    all: cbn [pp_update pp_offset_question pp_offset_answers pp_offset_nameservers pp_offset_additional pp_offset_edns
               pp_edns_count pp_ext_rcode pp_edns_version pp_ext_flags pp_max_payload pp_maybe_compressed pp_cached] in E0 |- *.
+    all: rewrite Voq, Voa, Von, Vor, Vc, Vrc, Vver, Vxf, Vmp, Vmc.
     all: cbn [ext_a ext_n ext_r] in Oa', On', Or'.
     all: rewrite Oa, On, Or, Oa', On', Or', Oqf, Oqq, Eins.
     all: split; [reflexivity|].
@@ -708,6 +726,46 @@ Proof.
     + split; [reflexivity|]. split; [reflexivity|]. split; [apply opt_or_end|].
       split; [exact E0|]. repeat split; assumption.
 Qed.
+
+Theorem insert_fresh : forall p v it sec rx s',
+  bytes_ok p -> parse p = Ok v -> plain_rr_ok rx -> sec = SAnswer \/ sec = SNameServers \/ sec = SAdditional ->
+  (sec <> SAdditional -> exists w, u16_at p 2 w /\ N.land w 32768 = 32768%N) ->
+  m_insert_rr sec (plain_record rx) (v, it) = (s', Ok tt) ->
+  exists q qls qt A Nn R,
+    let o1 := 12 + length (wire_of_labels qls) + 4 in
+    uncompress p = Ok q /\
+    reading q qls qt (place o1 A) (place (o1 + length (cat A)) Nn) (place (o1 + length (cat A) + length (cat Nn)) R) /\
+    let A' := ext_a sec rx A in let N' := ext_n sec rx Nn in let R' := ext_r sec rx R in
+    let z := pp_packet (fst s') in
+    q = build (firstn 12 q) qls qt A Nn R /\ z = build (firstn 12 z) qls qt A' N' R' /\
+    bytes_ok z /\ wf_packet z /\
+    reading z qls qt (place o1 A') (place (o1 + length (cat A')) N') (place (o1 + length (cat A') + length (cat N')) R') /\
+    snd s' = it /\
+    exists f, parse z = Ok f /\
+      pp_offset_question (fst s') = pp_offset_question f /\ pp_offset_answers (fst s') = pp_offset_answers f /\
+      pp_offset_nameservers (fst s') = pp_offset_nameservers f /\ pp_offset_additional (fst s') = pp_offset_additional f /\
+      pp_offset_edns (fst s') = pp_offset_edns f /\ pp_edns_count (fst s') = pp_edns_count f /\
+      pp_ext_rcode (fst s') = pp_ext_rcode f /\ pp_edns_version (fst s') = pp_edns_version f /\
+      pp_ext_flags (fst s') = pp_ext_flags f /\ pp_max_payload (fst s') = pp_max_payload f /\
+      pp_maybe_compressed (fst s') = false /\ pp_cached (fst s') = None.
+Proof.
+  intros p v it sec rx s' Hb Hp Hrx Hsec Hgate Hins.
+  destruct (insert_prologue_fresh p v it Hb Hp) as (q & v' & Hu & Hp' & Hpk' & Hpro).
+  destruct (uncompress_roundtrip p v Hb Hp) as (q0 & v0 & _ & _ & _ & _ & _ & _ & _ & _ & Hu0 & Hbq & Hp0 & Hfix & _).
+  rewrite Hu in Hu0. inversion Hu0; subst q0. clear Hu0 Hp0 v0.
+  unfold m_insert_rr in Hins. apply cbind_ok in Hins. destruct Hins as (a & s1' & Hpro' & Hcore). rewrite Hpro in Hpro'. inversion Hpro'; subst s1'. clear Hpro'.
+  assert (Hgq : sec <> SAdditional -> exists w, u16_at q 2 w /\ N.land w 32768 = 32768%N).
+  { intros Hns'. destruct (Hgate Hns') as (w0 & Hw0 & Hqr). exists w0. split; [|exact Hqr].
+    pose proof (uncompress_header p q Hu) as Hh.
+    pose proof (u16_at_firstn p 12 2 w0 ltac:(lia) Hw0) as U0. rewrite <- Hh in U0.
+    destruct U0 as (a0 & b0 & Ha0 & Hb0 & E0). exists a0, b0. rewrite nth_error_firstn in Ha0, Hb0 by lia. auto. }
+  assert (Hsv : same_view (decompressed_view v') v') by (unfold same_view, decompressed_view, pp_update; cbn; repeat split; reflexivity).
+  destruct (insert_core_plain q v' (decompressed_view v') it sec rx s' Hbq Hp' Hfix Hsv eq_refl Hrx Hsec Hgq Hcore)
+    as (qls & qt & A & Nn & R & H). cbv zeta in H.
+  exists q, qls, qt, A, Nn, R. cbv zeta. split; [exact Hu|].
+  destruct H as (G1 & G2 & G3 & G4 & G5 & _ & _ & G6). auto 10.
+Qed.
+
 
 
 (** ** Records of accepted packets are such records *)
@@ -747,4 +805,114 @@ Proof.
   intros p v it sec rx s' Hb Hp Hrx Hsec Hg Hins.
   destruct (insert_fresh p v it sec rx s' Hb Hp Hrx Hsec Hg Hins) as (q & qls & qt & A & Nn & R & H). cbv zeta in H.
   destruct H as (_ & _ & _ & _ & _ & _ & _ & _ & Hf). exact Hf.
+Qed.
+
+(** ** Histories of insertions (C08 over a sub-language of operations)
+
+    [dinv v]: the object is marked as not compressed, its bytes are an accepted fixed point of
+    decompression, and its view is that of a fresh parse of them.  The prologue of the first
+    insertion into a freshly parsed response establishes it; every successful insertion of a
+    well-formed pointer-free non-OPT record and every [recompute] preserves it. *)
+Record dinv (v : ppacket) : Prop := {
+  di_mc : pp_maybe_compressed v = false;
+  di_bytes : bytes_ok (pp_packet v);
+  di_fix : uncompress (pp_packet v) = Ok (pp_packet v);
+  di_view : exists f, parse (pp_packet v) = Ok f /\ same_view v f
+}.
+
+Definition is_response (p : bytes) : Prop := exists w, u16_at p 2 w /\ N.land w 32768 = 32768%N.
+
+Lemma prologue_dinv p v it : bytes_ok p -> parse p = Ok v ->
+  exists dv, insert_prologue (v, it) = ((dv, it), Ok tt) /\ dinv dv /\ (is_response p -> is_response (pp_packet dv)).
+Proof.
+  intros Hb Hp. destruct (insert_prologue_fresh p v it Hb Hp) as (q & v' & Hu & Hp' & Hpk' & Hpro).
+  destruct (uncompress_roundtrip p v Hb Hp) as (q0 & v0 & _ & _ & _ & _ & _ & _ & _ & _ & Hu0 & Hbq & Hp0 & Hfix & _).
+  rewrite Hu in Hu0. inversion Hu0; subst q0. clear Hu0 Hp0 v0.
+  exists (decompressed_view v'). split; [exact Hpro|].
+  assert (Hdvp : pp_packet (decompressed_view v') = q) by (unfold decompressed_view, pp_update; cbn; exact Hpk').
+  split.
+  - constructor; rewrite ?Hdvp; try assumption; [reflexivity|].
+    exists v'. split; [exact Hp'|]. unfold same_view, decompressed_view, pp_update. cbn. repeat split; reflexivity.
+  - intros (w0 & Hw0 & Hqr). rewrite Hdvp. exists w0. split; [|exact Hqr].
+    pose proof (uncompress_header p q Hu) as Hh.
+    pose proof (u16_at_firstn p 12 2 w0 ltac:(lia) Hw0) as U0. rewrite <- Hh in U0.
+    destruct U0 as (a0 & b0 & Ha0 & Hb0 & E0). exists a0, b0. rewrite nth_error_firstn in Ha0, Hb0 by lia. auto.
+Qed.
+
+Theorem insert_keeps_dinv : forall v it sec rx s',
+  dinv v -> plain_rr_ok rx -> sec = SAnswer \/ sec = SNameServers \/ sec = SAdditional ->
+  (sec <> SAdditional -> is_response (pp_packet v)) ->
+  m_insert_rr sec (plain_record rx) (v, it) = (s', Ok tt) ->
+  dinv (fst s') /\ snd s' = it /\ (is_response (pp_packet v) -> is_response (pp_packet (fst s'))) /\
+  exists qls qt A Nn R,
+    let o1 := 12 + length (wire_of_labels qls) + 4 in
+    reading (pp_packet v) qls qt (place o1 A) (place (o1 + length (cat A)) Nn) (place (o1 + length (cat A) + length (cat Nn)) R) /\
+    let A' := ext_a sec rx A in let N' := ext_n sec rx Nn in let R' := ext_r sec rx R in
+    reading (pp_packet (fst s')) qls qt (place o1 A') (place (o1 + length (cat A')) N') (place (o1 + length (cat A') + length (cat N')) R').
+Proof.
+  intros v it sec rx s' [Hmc Hb Hfix (f & Hf & Hsv)] Hrx Hsec Hgate Hins.
+  unfold m_insert_rr, insert_prologue, cbind, getv, cret in Hins. cbn [fst snd] in Hins. rewrite Hmc in Hins.
+  assert (Hpkf : pp_packet f = pp_packet v) by (destruct (parse_shape _ f Hb Hf) as (? & ? & ? & ? & ? & ? & ? & F0); exact (pf_packet _ _ _ _ _ _ _ _ _ F0)).
+  destruct (insert_core_plain (pp_packet v) f v it sec rx s' Hb Hf Hfix Hsv Hmc Hrx Hsec Hgate Hins)
+    as (qls & qt & A & Nn & R & H). cbv zeta in H.
+  destruct H as (Rq & _ & Ez & Bz & Wz & Fz & Hflags & Rz & Hit & f2 & Hf2 & E1 & E2 & E3 & E4 & E5 & E6 & E7 & E8 & E9 & E10 & E11 & _).
+  split.
+  - constructor; [exact E11|exact Bz|exact Fz|]. exists f2. split; [exact Hf2|].
+    assert (Hpk2 : pp_packet f2 = pp_packet (fst s')) by (destruct (parse_shape _ f2 Bz Hf2) as (? & ? & ? & ? & ? & ? & ? & F0); exact (pf_packet _ _ _ _ _ _ _ _ _ F0)).
+    unfold same_view. rewrite Hpk2. repeat split; assumption.
+  - split; [exact Hit|]. split; [intros (w0 & Hw0 & Hqr); exists w0; split; [apply Hflags; exact Hw0|exact Hqr]|].
+    exists qls, qt, A, Nn, R. cbv zeta. split; [exact Rq|exact Rz].
+Qed.
+
+Lemma recompute_keeps_dinv v it : dinv v -> m_recompute (v, it) = ((v, it), Ok tt).
+Proof. intros [Hmc _ _ _]. unfold m_recompute, cbind, getv, cret. cbn [fst snd]. rewrite Hmc. reflexivity. Qed.
+
+(** a history: insertions and recomputes *)
+Inductive hop : Type := HInsert (sec : section) (rx : rec_view * rd_view) | HRecompute.
+
+Definition hop_ok (o : hop) : Prop :=
+  match o with
+  | HInsert sec rx => plain_rr_ok rx /\ (sec = SAnswer \/ sec = SNameServers \/ sec = SAdditional)
+  | HRecompute => True
+  end.
+
+Definition run_hop (o : hop) : cm unit :=
+  match o with HInsert sec rx => m_insert_rr sec (plain_record rx) | HRecompute => m_recompute end.
+
+Fixpoint run_hops (ops : list hop) (s : st) : st * res unit :=
+  match ops with
+  | [] => (s, Ok tt)
+  | o :: ops' => match run_hop o s with (s1, Ok _) => run_hops ops' s1 | (s1, Err e) => (s1, Err e) | (s1, Panic x) => (s1, Panic x) end
+  end.
+
+Theorem hops_keep_dinv : forall ops v it s', dinv v -> is_response (pp_packet v) -> Forall hop_ok ops ->
+  run_hops ops (v, it) = (s', Ok tt) -> dinv (fst s') /\ snd s' = it /\ is_response (pp_packet (fst s')).
+Proof.
+  induction ops as [|o ops IH]; intros v it s' Hd Hr Hok H; cbn [run_hops] in H.
+  - inversion H; subst. auto.
+  - pose proof (Forall_inv Hok) as Ho. pose proof (Forall_inv_tail Hok) as Hoks.
+    destruct (run_hop o (v, it)) as [s1 [u| |]] eqn:E; try discriminate. destruct u.
+    destruct o as [sec rx|]; cbn [run_hop hop_ok] in E, Ho.
+    + destruct Ho as [Hrx Hsec].
+      destruct (insert_keeps_dinv v it sec rx s1 Hd Hrx Hsec (fun _ => Hr) E) as (Hd1 & Hit1 & Hr1 & _).
+      destruct s1 as [v1 it1]. cbn [fst snd] in *. subst it1. apply (IH v1 it s' Hd1 (Hr1 Hr) Hoks H).
+    + rewrite (recompute_keeps_dinv v it Hd) in E. inversion E; subst. apply (IH v it s' Hd Hr Hoks H).
+Qed.
+
+(** from a freshly parsed response: after a first insertion, any further history of insertions and recomputes *)
+Theorem fresh_history_dinv : forall p v it sec rx ops s', bytes_ok p -> parse p = Ok v -> is_response p ->
+  Forall hop_ok (HInsert sec rx :: ops) -> run_hops (HInsert sec rx :: ops) (v, it) = (s', Ok tt) ->
+  dinv (fst s') /\ snd s' = it.
+Proof.
+  intros p v it sec rx ops s' Hb Hp Hr Hok H. cbn [run_hops run_hop] in H.
+  destruct (prologue_dinv p v it Hb Hp) as (dv & Hpro & Hd & Hrd).
+  destruct (m_insert_rr sec (plain_record rx) (v, it)) as [s1 [u| |]] eqn:E; try discriminate. destruct u.
+  (* the first insertion: its prologue lands in [dinv], its core starts from there *)
+  assert (E' : m_insert_rr sec (plain_record rx) (dv, it) = (s1, Ok tt)).
+  { unfold m_insert_rr in E |- *. unfold cbind in E |- *. rewrite Hpro in E.
+    unfold insert_prologue, cbind, getv, cret. cbn [fst snd]. rewrite (di_mc _ Hd). exact E. }
+  pose proof (Forall_inv Hok) as [Hrx Hsec]. pose proof (Forall_inv_tail Hok) as Hoks.
+  destruct (insert_keeps_dinv dv it sec rx s1 Hd Hrx Hsec (fun _ => Hrd Hr) E') as (Hd1 & Hit1 & Hr1 & _).
+  destruct s1 as [v1 it1]. cbn [fst snd] in *. subst it1.
+  destruct (hops_keep_dinv ops v1 it s' Hd1 (Hr1 (Hrd Hr)) Hoks H) as (A & B & _). auto.
 Qed.
